@@ -14,7 +14,7 @@ git -C "$WT" apply "$SEED/patch.diff" 2>/dev/null || git -C "$WT" apply -3 "$SEE
 PYTHONPATH="$WT" timeout 900 $RUN "$DEMO" >/tmp/conf.$$.b 2>&1; B=$?
 T=0; NT="none"
 if [ $# -gt 0 ]; then
-  PYTHONPATH="$WT" timeout 3000 /venv/bin/python -m pytest -q -p no:cacheprovider --continue-on-collection-errors "$@" >/tmp/conf.$$.t 2>&1; T=$?
+  PYTHONPATH="$WT:/verif/tools" timeout 3000 /venv/bin/python -m pytest -q -p no:cacheprovider -p portshift --continue-on-collection-errors "$@" >/tmp/conf.$$.t 2>&1; T=$?
   NT=$(tail -1 /tmp/conf.$$.t | sed 's/\x1b\[[0-9;]*m//g')
 fi
 printf '{"applies": true, "demo_exit_without_patch": %s, "demo_exit_with_patch": %s, "tests_exit_with_patch": %s, "tests_summary": "%s", "tests": "%s"}\n' "$A" "$B" "$T" "$NT" "$*" > "$OUTJ"
